@@ -400,7 +400,7 @@ pub fn build(cfg: &GenCfg, n: usize, raws: &[RawClass]) -> MapSet {
 				} else if !(cfg.param_src_names && pct(p.src, 40)) {
 					pn[0] = None;
 				}
-				params.entry((p.index % 8) as usize).or_insert(MParam { names: pn, doc: build_doc(cfg, &p.doc) });
+				params.entry(param_index(p.index)).or_insert(MParam { names: pn, doc: build_doc(cfg, &p.doc) });
 			}
 			let key = MemberKey { name: names[0].clone().unwrap(), desc };
 			c.methods.entry(key).or_insert(MMethod { names, doc: build_doc(cfg, &me.doc), params });
@@ -422,6 +422,17 @@ pub fn order_seed() -> impl Strategy<Value = u64> {
 
 // ---------------------------------------------------------------------------------------------
 // edit scripts: derive a related mapping set from a base set, driven by a generated byte stream
+
+/// parameter index from one draw: mostly 0..7, a quarter of the draws hit values where decimal text order and numeric
+/// order differ (9/10, 99/100), where 8- and 16-bit counters wrap, and the JVM's limit of 255 and beyond
+pub fn param_index(draw: u8) -> usize {
+	const EDGE: &[usize] = &[8, 9, 10, 11, 19, 20, 99, 100, 127, 128, 254, 255, 256, 1000, 65535, 65536];
+	if draw < 192 {
+		(draw % 8) as usize
+	} else {
+		EDGE[(draw - 192) as usize % EDGE.len()]
+	}
+}
 
 pub struct Draws<'a> {
 	data: &'a [u8],
@@ -526,7 +537,7 @@ pub fn edit(base: &MapSet, ns: usize, stream: &[u8]) -> MapSet {
 			if d.pct(15) {
 				let mut names: Names = vec![None; n];
 				names[ns] = Some(d.ident());
-				params.entry((d.next() % 8) as usize).or_insert(MParam { names, doc: None });
+				params.entry(param_index(d.next())).or_insert(MParam { names, doc: None });
 			}
 			me.params = params;
 			methods.insert(mk.clone(), me);
